@@ -7,6 +7,7 @@ per run with a SimRoot instance (shipped code unchanged, no hook).  Modes:
   buggify   as real, plus cooperative fault points modelled on behaviour measured in real scipy:
               extra_eval_after_root  (wolfe line search / MINPACK trust-region rejection / FD Jacobians)
               buffer_reuse           (MINPACK wrappers hand fun one work array, overwritten in place)
+              return_work_buffer     (with buffer_reuse: the returned x *is* that work array, holding the solution)
               early_stop             (stop after k evaluations, success=False)
   scripted  a pure-python damped Picard iteration whose step, acceptance and *which visited point
             is returned* (best-so-far, not necessarily the last) come from the plan
@@ -122,7 +123,16 @@ class SimRoot(object):
                 if ctx is not None:
                     ctx.fault('extra_eval_after_root')
         if use_buf and buf[0] is not None:
-            buf[0][...] = np.nan
+            if ok and faults.get('return_work_buffer'):
+                # what MINPACK-style code does: the solution is left in the very work array that was handed to fun (after
+                # in-place probes elsewhere) and that array is what is returned as x
+                buf[0][...] = np.asarray(res.x, dtype=float).reshape(buf[0].shape)
+                res.x = buf[0]
+                rec.faults.append('return_work_buffer')
+                if ctx is not None:
+                    ctx.fault('return_work_buffer')
+            else:
+                buf[0][...] = np.nan
             rec.faults.append('buffer_reuse')
             if ctx is not None:
                 ctx.fault('buffer_reuse')
@@ -223,6 +233,8 @@ def gen_plan(rng, n_unknowns=None, allow_scripted=True):
             f['extra_eval_after_root'] = [rng.choice([1e-8, 1e-3, 1e-3, 1.0]) for _ in range(rng.randrange(1, 4))]
         if rng.random() < 0.35:
             f['buffer_reuse'] = True
+            if rng.random() < 0.4:
+                f['return_work_buffer'] = True
         if rng.random() < 0.1:
             f['early_stop'] = rng.randrange(1, 30)
         if not f:
